@@ -204,6 +204,9 @@ def option_sweep(kind, seed):
     for c in c20.cases(seed, True, pairwise=False):
         if c["kind"] == kind and not c["invalid"]:
             out.append(dict(c, sweep=True))
+            if ":population-product:" not in c["label"]:
+                # the same option again in a run that is killed at its first checkpoint and resumed
+                out.append(dict(c, sweep=True, kill_at=(1,)))
     return out
 
 
@@ -220,6 +223,8 @@ def cfg_key(cfg):
         parts.append(f"{k}={kw[k]}")
     if cfg.get("resume", "none") != "none":
         parts.append(f"resume={cfg['resume']}")
+    if cfg.get("kill_at"):
+        parts.append(f"killed_at_checkpoint={sorted(cfg['kill_at'])}")
     return ",".join(str(p) for p in parts).replace(" ", "")
 
 
